@@ -220,6 +220,41 @@ def run (P : Nat → List Cmd) : St → List Op → Option (St × List Obs)
       | none => none
       | some r2 => some (r2.1, r1.2 ++ r2.2)
 
+/-! ## the owning mode (`mpf/core/mode.py`): `Mode.stop()` and `_finish_stop()` as operations on the mode's DelayManager
+
+`Mode.stop()` (mode running): `self.delay.clear()`, then the queue event `mode_<name>_stopping` is posted; while a handler
+holds that queue the mode is *stopping* — time passes, handlers and callbacks may still add delays on `mode.delay`, and
+those may fire.  When the queue is released `_stopped` / `_finish_stop` run: `self.delay.clear()` once more (and the mode's
+devices are removed).  A second `stop()` while stopping or on a stopped mode does nothing to the delays.  A mode-level history is
+the run of its flattening: phase 0 = running, 1 = stopping (queue event held), 2 = stopped. -/
+
+inductive MOp
+  | op (o : Op)     -- anything else: calls on the manager, time, the loop running a due timer
+  | stop            -- `Mode.stop()`
+  | finish          -- the `mode_<name>_stopping` queue is released: `_stopped`, `_finish_stop`
+deriving Repr
+
+def mflat : Nat → List MOp → List Op
+  | _, [] => []
+  | ph, .op o :: r => o :: mflat ph r
+  | 0, .stop :: r => .cmd .clear :: mflat 1 r
+  | (ph + 1), .stop :: r => mflat (ph + 1) r
+  | 1, .finish :: r => .cmd .clear :: mflat 2 r
+  | 0, .finish :: r => mflat 0 r
+  | (ph + 2), .finish :: r => mflat (ph + 2) r
+
+def mphase : Nat → List MOp → Nat
+  | ph, [] => ph
+  | ph, .op _ :: r => mphase ph r
+  | 0, .stop :: r => mphase 1 r
+  | (ph + 1), .stop :: r => mphase (ph + 1) r
+  | 1, .finish :: r => mphase 2 r
+  | 0, .finish :: r => mphase 0 r
+  | (ph + 2), .finish :: r => mphase (ph + 2) r
+
+/-- a history of a mode and its delay manager, from phase `ph` -/
+def mrun (P : Nat → List Cmd) (s : St) (ph : Nat) (ops : List MOp) : Option (St × List Obs) := run P s (mflat ph ops)
+
 /-! ## line protocol -/
 
 def parseInt (t : String) : Option Int :=
